@@ -222,6 +222,11 @@ class C14(Check):
         # one is -1 (never met), 0.0 or the integer 0 (met only by an error estimate of exactly zero)
         t = stream(rk, "tols")
         cfg["tols"] = [t.choice([-1.0, -1.0, 1e-30, 1e-12]), t.choice([-1.0, -1.0, -1.0, 0.0, 0])]
+        if strategy in ("dimension_wise", "extend_split", "cell") and stream(rk, "reference").random() < 0.4:
+            # an operation with a reference solution: the driver then works with the global error estimate (another return path of
+            # every evaluation); the tolerances above stay out of reach of a hash-valued integrand
+            rr = stream(rk, "reference_values")
+            cfg["reference"] = [rr.choice([0.5, -0.3, 2.0, 0.05]) for _ in range(cfg["nnoise"])]
         return {"config": cfg, "ops": []}
 
     def simplify(self, s):
@@ -260,7 +265,11 @@ class C14(Check):
             cls = {"dimension_wise": DS.DimwiseSim, "cell": ES.CellSim}.get(st, ES.ExtendSplitSim)
             sim = cls(cfg, rk, ctx, [])
         sim.eval_cap = 150
-        sim.build()
+        if cfg.get("reference"):
+            sim.build(reference=cfg["reference"])
+            ctx.probe("operation_with_reference_solution")
+        else:
+            sim.build()
         if st in ("dimension_wise_uq", "dimension_wise_de"):
             ctx.exc_sig = dict(getattr(ctx, "exc_sig", None) or {}, strategy=st)
             sim.too_big = lambda: False
